@@ -166,6 +166,10 @@ impl<E: Engine> RateEncoder<E> for DefaultRateEncoder<E> {
     ) -> Result<(), Error> {
         let new_rate_is_high = use_high_rate(original_count, recovery_count)?;
 
+        // Validate everything before the inner codec is taken out,
+        // so that a failed reset leaves `self` unchanged and usable.
+        Self::validate(original_count, recovery_count, shard_bytes)?;
+
         self.0 = match std::mem::take(&mut self.0) {
             InnerEncoder::High(mut high) => {
                 if new_rate_is_high {
@@ -309,6 +313,10 @@ impl<E: Engine> RateDecoder<E> for DefaultRateDecoder<E> {
         shard_bytes: usize,
     ) -> Result<(), Error> {
         let new_rate_is_high = use_high_rate(original_count, recovery_count)?;
+
+        // Validate everything before the inner codec is taken out,
+        // so that a failed reset leaves `self` unchanged and usable.
+        Self::validate(original_count, recovery_count, shard_bytes)?;
 
         self.0 = match std::mem::take(&mut self.0) {
             InnerDecoder::High(mut high) => {
